@@ -208,10 +208,22 @@ PROPS["C11"] = dict(
     assumptions=[],
 )
 
+PROPS["C08"] = dict(
+    level="proof",
+    claim="Partial: (E1, proof for every extent and result index, ranks 2..3, one reduction axis given at compile or run time incl. negative, keepdims on/off) index::reduction_slices designates for result index r exactly [0, extent) on the reduced axis and [r_k, r_k+1) on every other axis - i.e. exactly the source elements whose non-reduced coordinates match -, and remove_dims yields NumPy's result shape; (E2) reduce_t folds the C-order flattening of exactly that slice with reducer_t, whose loop is acc = op(acc, element i) for i ascending from the first element (or from `initial`), accumulate_t folds the prefix [0, s+1) of the axis, and sum/prod/cumsum/cumprod are the add/multiply reduction resp. accumulation with operands in order. Multiple axes, mean/var/stddev/vector_norm/trace values and the slicing step itself (C05) are not decided.",
+    note=E1_NOTE + " " + E2_NOTE + " Assumes that a (start, stop) slice selects the elements start..stop-1 in order (C05, not decided) and that flatten keeps C order (proved under C03).",
+    technique=E1_TECH + " + structural fold-order rule over the reduction views (custom libTooling extractor)",
+    e1=[dict(tu="c08_reduce.cpp")],
+    e2=[dict(rule="R-FOLD")],
+    rule=E1_RULE + "; E2: one instance per reducer / reduce / accumulate call operator and per sum/prod/cumsum/cumprod overload",
+    explanation="Which elements enter a fold is an index-level fact (the slices), decided for all values; the order and accumulator position are structural facts of the fold loop.",
+    not_decided="several reduction axes at once, axis=None path beyond 'flatten the whole array', dtype/initial value arithmetic, mean/var/stddev/vector_norm/trace, the slicing view (C05)",
+    assumptions=["slice [start,stop) selects start..stop-1 in increasing order (C05)", "extents >= 1"],
+)
+
 HOOK_COMMITS = []
 NOT_APPLICABLE = [
  dict(property_id="C05", reason="slice lengths go through ceil(float) and an 8-way sign/None case split on run-time values; no sound static argument in reach, and weaker structural proxies are not necessary conditions (DESIGN §3 C05)"),
- dict(property_id="C08", reason="which elements enter which fold is decided by run-time slices+flatten loops over run-time extents; only a shape clause would be reachable and would misrepresent the property (DESIGN §3 C08)"),
  dict(property_id="C16", reason="value-level sums over run-time contraction lengths through 5-8 stage view pipelines; nothing structural that is also necessary (DESIGN §3 C16)"),
  dict(property_id="C17", reason="floating-point results of long view pipelines with tolerance; nothing structural that is also necessary (DESIGN §3 C17)"),
 ]
